@@ -238,12 +238,79 @@ def run(ctx):
     temperatures(ctx, env)
     levels(ctx, env)
     exact_magnitudes(ctx, env)
+    ladders(ctx, env)
     for e in ctx.known:
         if e.get("status") == "known":
             ctx.witness(e["key"], ctx.known_hits.get(e["key"], 0) > 0)
     ctx.require("away_from_ties", 100)
     ctx.require("hash_checks", 5)
     ctx.require("pairs/M-M", 100)
+
+
+def ladders(ctx, env):
+    """what people actually sort: a handful of small round readings (-3 .. 3, halves, tens; int, float, Decimal) of one
+    kind in two or three everyday units with exact ratios (m / ft / in / km / yd, s / min / h, g / kg / lb), every pair
+    compared in sequence with all six operators and the whole list sorted.  Exact rational values decide; consecutive
+    comparisons of neighbouring small numbers are the point (values that collide in a hash, 0 and -0.0, 1 and 1.0)"""
+    m, rng = env.m, ctx.rng
+    U, P = m.Unit._by_name, env.pools.prefixes
+    Q = m.Quantity
+    families = [
+        [(U["meter"], Fraction(1)), (U["foot"], Fraction(3048, 10000)), (U["inch"], Fraction(254, 10000)), (P["kilo"] * U["meter"], Fraction(1000)), (U["yard"], Fraction(9144, 10000))],
+        [(U["second"], Fraction(1)), (U["minute"], Fraction(60)), (U["hour"], Fraction(3600)), (P["milli"] * U["second"], Fraction(1, 1000))],
+        [(U["gram"], Fraction(1)), (P["kilo"] * U["gram"], Fraction(1000)), (U["pound"], Fraction(45359237, 100000))],
+    ]
+    families = [f for f in families if all(u is not None for u, _ in f)]
+    readings = [-3, -2, -1, 0, 1, 2, 3, 5, 10, 12, -0.5, 0.5, 1.5, -1.0, -2.0, 2.0, 0.0, 100, Decimal("-1"), Decimal("-2"), Decimal("2.5"), Decimal("0")]
+    rounds = 120 if ctx.tier == "quick" else 4000
+    for _ in range(rounds):
+        fam = rng.choice(families)
+        units = rng.sample(fam, rng.choice([2, 2, 3]))
+        items = []
+        for _ in range(rng.randint(3, 6)):
+            u, size = rng.choice(units)
+            x = rng.choice(readings)
+            items.append((Q(x, u), oracle.F(x) * size))
+        # neighbours in one unit, side by side: -1 and -2 (equal hashes in CPython), 1 and 1.0, 0 and -0.0
+        u, size = rng.choice(units)
+        for x in rng.choice([(-1, -2), (-2.0, -1.0), (Decimal("-1"), Decimal("-2")), (1, 1.0, 2), (0, -0.0, 1), (-1, -2.0, -3)]):
+            items.append((Q(x, u), oracle.F(x) * size))
+        ctx.count("evaluations")
+        ctx.count("ladders")
+        ctx.distinct(("ladder", tuple(sorted(str(q.unit) for q, _ in items)), tuple(sorted(str(q.magnitude) for q, _ in items))))
+        # all ordered pairs, one straight after the other
+        for (a, va) in items:
+            for (b, vb) in items:
+                if a is b:
+                    continue
+                ctx.count("pairs/Q-Q/ladder")
+                o = (va > vb) - (va < vb)
+                if o == 0 and (a.unit is not b.unit or type(a.magnitude) is not type(b.magnitude)):
+                    # equal values written in different units, or as a float and a Decimal under a fractional prefix
+                    # (-1.0 ms is -0.001, Decimal(-1) ms is Decimal(0.001) exactly): rounding may tie-break either way
+                    ctx.count("ties")
+                    continue
+                try:
+                    t = {"eq": a == b, "ne": a != b, "lt": a < b, "le": a <= b, "gt": a > b, "ge": a >= b}
+                except Exception as e:
+                    ctx.violation(f"C12:ladder:comparison-raised:{type(e).__name__}", f"{a!r} vs {b!r}: {e}", {"a": repr(a), "b": repr(b)})
+                    continue
+                want = {"eq": o == 0, "ne": o != 0, "lt": o < 0, "le": o <= 0, "gt": o > 0, "ge": o >= 0}
+                ctx.count("away_from_ties")
+                if any(t[k] is not v for k, v in want.items()):
+                    ctx.violation("C12:order-disagrees-with-physical-values", f"small readings {a!r} vs {b!r} (asked right after the other pairs of {[str(q) for q, _ in items]}): got {t}, exact order {o}",
+                                  {"a": repr(a), "b": repr(b), "items": [repr(q) for q, _ in items]})
+        try:
+            s_ = sorted(q for q, _ in items)
+        except Exception as e:
+            ctx.violation(f"C12:ladder:sorted-raised:{type(e).__name__}", f"{[repr(q) for q, _ in items]}: {e}", {})
+            continue
+        ctx.count("sorted_lists")
+        val = {id(q): v for q, v in items}
+        for x, y in zip(s_, s_[1:]):
+            if val[id(x)] > val[id(y)]:
+                ctx.violation("C12:sorted-not-physical", f"sorted() of small readings put {x!r} before {y!r}: {[str(q) for q in s_]}", {"items": [repr(q) for q, _ in items]})
+                break
 
 
 def exact_magnitudes(ctx, env):
